@@ -93,6 +93,17 @@ func (pl *plan) lookup(pt planPoint) (string, bool) {
 	return c, ok
 }
 
+// starts is the total number of Start calls the plan has been consulted for.
+func (pl *plan) starts() int {
+	pl.mu.Lock()
+	defer pl.mu.Unlock()
+	n := 0
+	for _, a := range pl.attempts {
+		n += a
+	}
+	return n
+}
+
 func (pl *plan) injectedNonOK() int {
 	pl.mu.Lock()
 	defer pl.mu.Unlock()
